@@ -242,8 +242,8 @@ int main( int argc, char** argv )
     // quasi factor 4 (and 3, rounded up to 4): ascending and descending scans, so that enqueuers and dequeuers meet from both ends
     typedef cc::SegmentedQueue<cds::gc::HP, Payload, ctr<p_asc, cds::sync::spin>> q4a;
     typedef cc::SegmentedQueue<cds::gc::HP, Payload, ctr<p_desc, cds::sync::spin>> q4d;
-    family<q4a, HpHolder<4>>( "SegmentedQueue-asc", 4, false, 2, 3, 1, 2 );
-    family<q4d, HpHolder<4>>( "SegmentedQueue-desc", 3, false, 2, 3, 1, 2 );
+    family<q4a, HpHolder<4>>( "SegmentedQueue-asc", 4, false, 2, 2, 1, 2 );
+    family<q4d, HpHolder<4>>( "SegmentedQueue-desc", 3, false, 2, 2, 1, 2 );
     typedef cc::SegmentedQueue<cds::gc::DHP, Payload, ctr<p_choose, cds::sync::spin>> q4c;
     family<q4c, DhpHolder>( "SegmentedQueue-choose", 4, false, 1, 2, 1, 1 );
 #elif FAMILY == 3
